@@ -280,7 +280,8 @@ Variable e : ec.
 Variable leaf_enc : level -> option str -> str -> result str.
 (* exotic = true is hl7apy.  Two code paths are never taken with the standard tables but cannot be
    excluded for arbitrary structures: (1) a Component / SubComponent called VARIES_n is attached by
-   Element.__init__ while its name is still None and named afterwards; (2) ElementList.set looks
+   Element.__init__ while its name is still None and named afterwards (with the standard tables the
+   attachment is always refused); (2) ElementList.set looks
    the replaced child up under a name that _find_name maps to yet another name.  With
    exotic = false the model raises OutOfFuel at those two points instead; this variant is used
    only to STATE that an operation does not take them (both settings then give the same result;
@@ -620,12 +621,11 @@ Definition create_element (p : nat) (name : str) (traversal : bool) (reference :
   let early_name := if valid_child_name (Some cname) (Some (unbs "VARIES")) && negb (cls_eqb (n_cls P) CSeg)
                     then None else n_name nd in
   let renamed := negb (opt_eqb early_name (n_name nd)) in
-  if renamed && negb exotic then raise OutOfFuel else
   let! c := alloc (with_name nd early_name) in
   (if traversal then set_tparent_raw c (Some p) ;; add p c
    else point_to c p ;; add p c) ;;
   (* CanBeVaries.__init__: self.name = name.upper(), only on the VARIES_n path *)
-  (if renamed then set_name c (n_name nd) else ret tt) ;;
+  (if renamed then (if exotic then set_name c (n_name nd) else raise OutOfFuel) else ret tt) ;;
   ret c.
 
 (* ---------- encoding (to_er7) over the heap ---------- *)
@@ -860,6 +860,30 @@ Fixpoint alloc_all {A} (f : A -> M nat) (l : list A) : M (list nat) :=
   | x :: r => let! i := f x in let! is := alloc_all f r in ret (i :: is)
   end.
 
+(* the structure swap of SupportComplexDataType._set_datatype: done BEFORE the check that may refuse
+   the change (new_ref = list(self.reference); new_ref[1] = struct; new_ref[2] = datatype) *)
+Definition restructure (X : node) (x : nat) (dt : option str) : M unit :=
+  (if negb (base dt) && negb (is_varies dt) && opt_is_some dt && negb (opt_eqb dt (n_dt X)) && opt_is_some (n_dt X)
+   then
+     match dt, n_st X with
+     | Some d, Some st =>
+         if negb (has_struct t d) then raise (HL7 EChildNotFound) else
+         let! st' := lift (match st_reference st with
+                           | SLeaf i => parse_structure t (SLeaf (mk_info dt (i_long i) (i_table i) (i_maxlen i)))
+                           | SSeqDt i | SSeqIn false _ (Some i) =>
+                               parse_structure t (SSeqDt (mk_info dt (i_long i) (i_table i) (i_maxlen i)))
+                           | SSeqIn true _ (Some i) =>
+                               match slookup d (t_structs t) with
+                               | Some rows => parse_structure t (SSeqIn true rows (Some (mk_info dt (i_long i) (i_table i) (i_maxlen i))))
+                               | None => HLe EChildNotFound
+                               end
+                           | _ => Err (Crash IndexError)
+                           end) in
+         set_st x (Some st')
+     | _, _ => raise (Crash AttributeError)
+     end
+   else ret tt).
+
 (* SupportComplexDataType._set_datatype *)
 Fixpoint set_datatype (fuel : nat) (x : nat) (dt : option str) : M unit :=
   match fuel with
@@ -881,26 +905,7 @@ Fixpoint set_datatype (fuel : nat) (x : nat) (dt : option str) : M unit :=
           set_dt x dt
       | _ =>
           if strict X && nonempty_name (n_dt X) && negb (opt_eqb dt (n_dt X)) then raise (HL7 EOperationNotAllowed) else
-          (if negb (base dt) && negb (is_varies dt) && opt_is_some dt && negb (opt_eqb dt (n_dt X)) && opt_is_some (n_dt X)
-           then
-             match dt, n_st X with
-             | Some d, Some st =>
-                 if negb (has_struct t d) then raise (HL7 EChildNotFound) else
-                 let! st' := lift (match st_reference st with
-                                   | SLeaf i => parse_structure t (SLeaf (mk_info dt (i_long i) (i_table i) (i_maxlen i)))
-                                   | SSeqDt i | SSeqIn false _ (Some i) =>
-                                       parse_structure t (SSeqDt (mk_info dt (i_long i) (i_table i) (i_maxlen i)))
-                                   | SSeqIn true _ (Some i) =>
-                                       match slookup d (t_structs t) with
-                                       | Some rows => parse_structure t (SSeqIn true rows (Some (mk_info dt (i_long i) (i_table i) (i_maxlen i))))
-                                       | None => HLe EChildNotFound
-                                       end
-                                   | _ => Err (Crash IndexError)
-                                   end) in
-                 set_st x (Some st')
-             | _, _ => raise (Crash AttributeError)
-             end
-           else ret tt) ;;
+          restructure X x dt ;;
           let! X := node_of x in
           match n_list X with
           | [] => set_dt x dt
